@@ -188,6 +188,79 @@ class _EchoDecoder:
 JSON_ALPHABET = (0x5B, 0x5D, 0x22, 0x5C, 0x20, 0x31, 0x7B, 0x7D)  # [ ] " \ space 1 { }
 
 
+def ref_json_frames(stream):
+    """Reference framing of JSONSerializer(use_lines=False), written from its documented rule (independent of raw_parse):
+    whitespace between documents is skipped; a document that starts with a quote ends with the next unescaped quote; a document
+    that starts with '{' or '[' ends with the bracket that brings the count of THAT bracket kind back to zero (brackets inside
+    strings do not count; a quote is escaped by an odd number of backslashes before it); a stray closing bracket is a one-byte
+    (malformed) document.  Plain values (numbers, literals) are outside this reference: it stops there.
+    Returns (list of document byte strings without surrounding whitespace, fully_framed: bool)."""
+    WS = (0x20, 0x09, 0x0A, 0x0D)
+    frames = []
+    i = 0
+    n = len(stream)
+    while True:
+        k = i
+        while k < n and stream[k] in WS:
+            k += 1
+        if k >= n:
+            return frames, True
+        c = stream[k]
+        if c == 0x22:
+            first = 0x22
+        elif c == 0x7B or c == 0x7D:
+            first = 0x7B
+        elif c == 0x5B or c == 0x5D:
+            first = 0x5B
+        else:
+            return frames, False
+        cnt = {0x7B: 0, 0x5B: 0}
+        in_str = False
+        end = -1
+        j = k
+        while j < n:
+            ch = stream[j]
+            quote = False
+            if ch == 0x22:
+                nb = 0
+                t = j - 1
+                while t >= i and stream[t] == 0x5C:
+                    nb += 1
+                    t -= 1
+                quote = nb % 2 == 0
+            if quote:
+                in_str = not in_str
+                if first == 0x22 and not in_str:
+                    end = j
+                    break
+            elif in_str:
+                pass
+            elif ch == 0x7B or ch == 0x5B:
+                cnt[ch] += 1
+            elif ch == 0x7D or ch == 0x5D:
+                cnt[0x7B if ch == 0x7D else 0x5B] -= 1
+                if first != 0x22 and cnt[first] <= 0:
+                    end = j
+                    break
+            j += 1
+        if end < 0:
+            return frames, True  # unterminated tail: stays pending, no event
+        frames.append(stream[k : end + 1])
+        e = end + 1
+        while e < n and stream[e] in WS:
+            e += 1
+        i = e
+
+
+def _same_text(text, raw):
+    if len(text) != len(raw):
+        return False
+    for t in range(len(raw)):
+        if ord(text[t]) != raw[t]:
+            return False
+    return True
+
+
 def jsonraw(N: int, cuts: int, first: int = -1, limit: int = 64):
     """JSONSerializer(use_lines=False): _JSONParser.raw_parse (bracket / quote / escape tracking, plain values, whitespace
     handling) over N symbolic bytes from the JSON structural alphabet: feeding the stream in pieces yields the same packets and
@@ -210,6 +283,15 @@ def jsonraw(N: int, cuts: int, first: int = -1, limit: int = 64):
         except Exception as e:  # noqa: BLE001
             return Outcome(ok=False, skeleton=("exc", type(e).__name__), tags=("exception",), detail={"exception": repr(e)})
         ok = _eq(whole, pieces)
+        # ... and both equal reference framing (as far as the reference goes: it stops at a plain value)
+        frames, full = ref_json_frames(stream)
+        if ok:
+            if len(whole) < len(frames) or (full and len(whole) != len(frames)):
+                ok = False
+            else:
+                for ev, fr in zip(whole, frames):
+                    if ev[0] != "pkt" or not _same_text(ev[1], fr):
+                        ok = False
         tags = []
         if len(whole) >= 2:
             tags.append("multi-frame")
@@ -259,6 +341,19 @@ def shards(tier: str):
                         B,
                         cost=3 ** (J + pre + 3),
                     )
+    # ---- obligation 2, strict reading where the current tree satisfies it -----------------------------------------
+    # With strict=True NOTHING attributable to the rejected frame may surface (no phantom packet made of its tail or of its
+    # terminator).  The open finding F-C02b is exactly the region where the pinned tree does not satisfy this (frames that
+    # exceed the limit before their terminator was seen: copy path J > L, buffered path J >= L - S).  Below that region - frames
+    # right at the limit included - the strict reading holds today and is checked, so a change that extends the F-C02b
+    # behaviour to at-the-limit frames (e.g. a rejection raised while half of the terminator is buffered) is reported.
+    for seplen in (1, 2, 3):
+        limit = 2 * seplen + 4
+        copy_js = range(limit - seplen - 2, limit + 1) if not quick else (limit - 1, limit)
+        buf_js = range(limit - seplen - 2, limit - seplen) if not quick else (limit - seplen - 1,)
+        for path, js in (("copy", copy_js), ("buf", buf_js)):
+            for J in js:
+                add(f"resume-strict/raw/S{seplen}/{path}/L{limit}/J{J}", "resume", dict(pre=-1, J=J, post=[1], seplen=seplen, limit=limit, cuts=2, path=path, kind="raw", hint=3, strict=True), B, cost=3 ** (J + 3))
     # a leading frame leaves stale bytes in the serializer-owned buffer: band values only in quick
     if quick:
         for seplen, limit in ((2, 8),):
